@@ -28,7 +28,7 @@ TplOf(name) ==
 
 \* ---- argument classes ---------------------------------------------------------
 AllOps == {"AddImage", "AddResource", "AddTable", "AddCellImage", "BadCell", "AddPlaceholder", "AddCellPlaceholder",
-           "Render", "RenderString", "Other", "Info", "Save", "Reopen", "OpenForeign"}
+           "Render", "RenderString", "RemovePic", "Other", "Info", "Save", "Reopen", "OpenForeign"}
 AllNames == {"png", "jpg", "jpeg", "PNG", "gif", "noext", "dot", "multi", "cjk", "space", "meta",
              "internal0", "internal1", "dotdot", "empty"}
 AllCells == {<<r, c>> : r \in 0..(TblRows - 1), c \in 0..(TblCols - 1)}
@@ -51,7 +51,7 @@ PlanOf(name) ==
   CASE name = "all" ->          \* the whole alphabet, small classes
          [Small EXCEPT !.dq = 2, !.dt = 3]
     [] name = "adds" ->         \* every way of adding a picture, with reopen and another relationship in between
-         [Small EXCEPT !.ops = {"AddImage", "AddResource", "AddTable", "AddCellImage", "Other", "Reopen"},
+         [Small EXCEPT !.ops = {"AddImage", "AddResource", "AddTable", "AddCellImage", "RemovePic", "Other", "Reopen"},
                        !.SizeNs = {"wkeep"}, !.Cells = {<<0, 1>>, <<1, 0>>}, !.dq = 3, !.dt = 4]
     [] name = "sizes" ->        \* the sizing rules on every path: every size configuration, images of several aspect ratios
          [Small EXCEPT !.ops = {"AddImage", "AddTable", "AddCellImage"}, !.Toks = IF Q THEN {"P3"} ELSE {"P3", "J2", "G3"},
@@ -136,6 +136,8 @@ OpsOf(s, g) ==
                               : h \in Cls(s, g.RenderHows), kp \in Cls(s, g.Keeps), d \in Cls(s, g.DataNs)} ELSE {})
   \cup (IF On("RenderString") THEN {[op |-> "RenderString", tn |-> tp, slots |-> TplOf(tp), lay |-> l, dn |-> d, data |-> DataOf(d)]
                                     : tp \in Cls(s, g.StrTpls), l \in Cls(s, g.Lays), d \in Cls(s, g.DataNs)} ELSE {})
+  \cup (IF On("RemovePic") THEN {[op |-> "RemovePic", i |-> i]
+                                 : i \in Cls(s, 1..(IF Cardinality(BodyPicPos(s)) < 2 THEN Cardinality(BodyPicPos(s)) ELSE 2))} ELSE {})
   \cup (IF On("Other") THEN {[op |-> "Other", what |-> w] : w \in Cls(s, g.Others)} ELSE {})
   \cup (IF On("Info") THEN {[op |-> w, h |-> h] : w \in Cls(s, g.InfoNs), h \in Cls(s, g.Hs)} ELSE {})
   \cup (IF On("Save") THEN {[op |-> "Save"]} ELSE {})
@@ -174,7 +176,7 @@ ToksOf(v) == [i \in 1..Len(v) |-> v[i].tok]
 Act_Stable ==
   [][LET op == last' IN
         op.op \notin {"OpenForeign", "RenderString"}
-           => /\ IsSubseqOf(Core(PV(st)), Core(PV(st')))
+           => /\ IF op.op = "RemovePic" THEN IsSubseqOf(Core(PV(st')), Core(PV(st))) ELSE IsSubseqOf(Core(PV(st)), Core(PV(st')))
               /\ Len(PV(st')) = Len(PV(st)) + RequestedPics(st, op)]_vars
 \* the new picture shows the bytes given, at the size the rules give, where it was put
 LastOfCell(s, op) ==
